@@ -163,7 +163,7 @@ var famE6C04 = set("term-not-durable", "vote-not-durable", "ack-not-durable", "c
 var famE6C11 = set("call-after-close", "exclusive-calls-overlap", "update-index-not-increasing", "ondisk-update-at-or-below-open-index",
 	"write-applied-twice", "replicas-applied-different-entries", "lookup-overlaps-update", "lookup-overlaps-recoverfromsnapshot",
 	"lookup-overlaps-close", "savesnapshot-overlaps-update", "savesnapshot-overlaps-recoverfromsnapshot", "savesnapshot-overlaps-close",
-	"update-overlaps-lookup", "completed-request-never-applied")
+	"update-overlaps-lookup", "completed-request-never-applied", "savesnapshot-overlaps-close")
 var famE6C12 = set("completed-with-foreign-result", "dropped-request-applied", "completed-request-never-applied", "no-terminal-result", "two-results")
 
 func TestVF_C01_Cluster(t *testing.T) {
@@ -208,10 +208,14 @@ func TestVF_C11_Cluster(t *testing.T) {
 			}
 			p.Faults = append(p.Faults, Fault{Kind: FStopReplica, A: vfhelp.Pick(t, "sr", 2), B: vfhelp.Pick(t, "srb", 3), AfterMs: 10 + vfhelp.PickN(t, "srafter", 40)},
 				Fault{Kind: FSnapshot, A: vfhelp.Pick(t, "ss", 2), AfterMs: 5 + vfhelp.PickN(t, "ssafter", 30)})
+			if vfhelp.Pick(t, "slowsnap", 1) == 1 {
+				p.SlowSnapMs = 10 + vfhelp.PickN(t, "slowsnapms", 40)
+				p.Faults = append(p.Faults, Fault{Kind: FCloseDuringSnapshot, A: vfhelp.Pick(t, "cds", 2), AfterMs: 10 + vfhelp.PickN(t, "cdsafter", 40)})
+			}
 		},
-		rule: "non-trivial = state machine calls really overlapped where allowed (Lookup/SaveSnapshot pending during Update) or a replica was stopped with client reads in flight",
+		rule: "non-trivial = state machine calls really overlapped where allowed (Lookup/SaveSnapshot pending during Update), a replica was stopped with client reads in flight, or a NodeHost was closed while a snapshot call was in progress",
 		nontriv: func(res *Result) bool {
-			return res.Rec.OverlapLookupUpdate+res.Rec.OverlapSaveUpdate > 0 || res.Flags["replica-stopped"] > 0
+			return res.Rec.OverlapLookupUpdate+res.Rec.OverlapSaveUpdate > 0 || res.Flags["replica-stopped"] > 0 || res.Flags["closed-during-snapshot"] > 0
 		}})
 }
 
